@@ -224,7 +224,7 @@ int main(int argc, char** argv) {
     { auto bd = parser.parseString(schedgen::base_deck() + "END\n"); g_es = std::make_unique<EclipseState>(bd); }
     auto deep = schedgen::deep_alphabet(); auto broad = schedgen::broad_alphabet();
     const int deep_depth = run.thorough() ? 4 : 3;
-    run.rule = "objects: every Schedule reached by histories over the C03 deep alphabet up to depth " + std::to_string(deep_depth) + " and by prelude T a T b over all ordered pairs of the broad alphabet (every SCHEDULE handler keyword); EclipseState + SummaryConfig of the model deck in 4 unit keywords x feature switches; SummaryState/UDQState/Action::State/WellTestState reached by all update sequences up to length " + std::to_string(run.thorough() ? 4 : 3) + "; RestartValue for all 32 feature subsets; Schedules and SummaryStates with START in 12 years around the time-representation boundaries (1901/1970/2038/2106/2262); TableManager of 60 table families one at a time and in ordered pairs (PLYSHLOG/ROCKTAB are split and merged by hand in serializeOp), each also compared with a twin built from the same deck; invariant per object: pack() sizes its buffer for exactly the bytes it writes and leaves the packed object canonically unchanged, unpack consumes the packed size, canon equal (all serialized members), operator==, public query sweep equal, re-pack same length; Schedules additionally: applying ACTIONX A1 to original and copy gives equal schedules; states = Schedules checked, transitions = future checks";
+    run.rule = "objects: every Schedule reached by histories over the C03 deep alphabet up to depth " + std::to_string(deep_depth) + " and by prelude T a T b over all ordered pairs of the broad alphabet (every SCHEDULE handler keyword); EclipseState + SummaryConfig of the model deck in 4 unit keywords x feature switches; SummaryState/UDQState/Action::State/WellTestState reached by all update sequences up to length " + std::to_string(run.thorough() ? 4 : 3) + "; RestartValue for all 32 feature subsets; UnitSystem of every family unpacked into objects of every family, observed through parse()/getDimension()/to_si/from_si (the dimension table is derived state); Schedules and SummaryStates with START in 12 years around the time-representation boundaries (1901/1970/2038/2106/2262); TableManager of 60 table families one at a time and in ordered pairs (PLYSHLOG/ROCKTAB are split and merged by hand in serializeOp), each also compared with a twin built from the same deck; invariant per object: pack() sizes its buffer for exactly the bytes it writes and leaves the packed object canonically unchanged, unpack consumes the packed size, canon equal (all serialized members), operator==, public query sweep equal, re-pack same length; Schedules additionally: applying ACTIONX A1 to original and copy gives equal schedules; states = Schedules checked, transitions = future checks";
     run.assumptions = {"EclipseState grid and field properties excluded as the statement says", "canon() normalisations (UnitSystem cache, DeckItem raw/SI flag, KeywordLocation)", "byte identity of the re-packed buffer is reported, not required (statement: same length and meaning)"};
 
     std::string only;                                          // replay of one ES / TM case: the enumeration below runs with this filter
@@ -232,7 +232,7 @@ int main(int argc, char** argv) {
         std::istringstream ss(run.replay_path); std::string regime; ss >> regime; std::vector<int> h; int x; while (ss >> x) h.push_back(x);
         if (regime == "deep") { g_alpha = &deep; g_prelude = ""; check_schedule(regime, h); }
         else if (regime == "broad") { g_alpha = &broad; g_prelude = schedgen::prelude_wells(); check_schedule(regime, h); }
-        else if (regime == "TM" || regime == "ES" || regime == "CAL") { run.nshards = 1; run.shard = 0; only = run.replay_path; }
+        else if (regime == "TM" || regime == "ES" || regime == "CAL" || regime == "US") { run.nshards = 1; run.shard = 0; only = run.replay_path; }
         else { run.nshards = 1; dynamic_states(true); }
         if (only.empty()) return run.finish();
     }
@@ -262,6 +262,34 @@ int main(int argc, char** argv) {
                 roundtrip("EclipseState", es, [] { return std::make_unique<EclipseState>(); }, [](const EclipseState& e) { std::string o = e.getTitle() + "|" + vf::canon(e.getDeckUnitSystem()) + "|" + vf::canon(e.runspec().phases().size()) + "|" + std::to_string(e.getTableManager().getPvtwTable().size()) + "|" + std::to_string(e.getTableManager().getSwofTables().size()) + "|" + std::to_string(e.getFaults().size()) + "|" + std::to_string(e.gridDims().getCartesianSize()) + "|" + (e.runspec().endpointScaling() ? "E" : "-") + "|" + std::to_string(e.getTableManager().getDensityTable().size()) + "|" + vf::canon(e.getSimulationConfig().hasDISGAS()) + "|" + vf::canon(e.getTableManager().getEqldims().getNumEquilRegions()); return o; }, cs);
                 roundtrip("SummaryConfig", sc, [] { return std::make_unique<SummaryConfig>(); }, [](const SummaryConfig& c) { std::string o = std::to_string(c.size()) + ":"; for (const auto& n : c) o += n.keyword() + "/" + n.namedEntity() + "/" + std::to_string(n.number()) + ","; for (auto k : {"FOPR", "WOPR", "BPR", "XXXX"}) o += c.hasKeyword(k) ? "1" : "0"; return o; }, cs);
             } catch (const std::exception& e) { run.count("model_variants_rejected"); if (run.shard == 0) run.notes["model_reject"] = std::string(e.what()).substr(0, 200); }
+        }
+    }
+    // UnitSystem of every family, unpacked into a default constructed (METRIC) object: the dimension table is derived state
+    // which canon() normalises away (it is a lazily filled cache), so it is observed through the public queries here
+    for (int ut = 0; ut < 4; ++ut) {
+        const std::string cs = "US " + std::to_string(ut);
+        if (!only.empty() && cs != only) continue;
+        if (!run.mine()) continue;
+        run.current(cs);
+        static const UnitSystem::UnitType types[4] = {UnitSystem::UnitType::UNIT_TYPE_METRIC, UnitSystem::UnitType::UNIT_TYPE_FIELD, UnitSystem::UnitType::UNIT_TYPE_LAB, UnitSystem::UnitType::UNIT_TYPE_PVT_M};
+        UnitSystem us(types[ut]);
+        auto us_obs = [](const UnitSystem& u) {
+            std::string o = u.getName() + "|" + std::to_string((int)u.getType()) + "|";
+            for (const char* d : {"1", "Length", "Time", "Pressure", "Density", "Viscosity", "Permeability", "Transmissibility", "LiquidSurfaceVolume", "GasSurfaceVolume", "ReservoirVolume", "Mass", "Temperature", "AbsoluteTemperature", "GasDissolutionFactor", "OilDissolutionFactor", "Energy", "Length*Length", "Pressure/Length", "LiquidSurfaceVolume/Time", "GasSurfaceVolume/Time"}) {
+                try { const auto dim = u.parse(d); o += std::string(d) + "=" + vf::fmt17(dim.getSIScaling()) + "+" + vf::fmt17(dim.getSIOffset()) + ";"; } catch (const std::exception&) { o += std::string(d) + "=?;"; }
+                try { if (u.hasDimension(d)) { const auto& dim = u.getDimension(d); o += "g" + vf::fmt17(dim.getSIScaling()) + ";"; } } catch (const std::exception&) { o += "g?;"; }
+            }
+            for (int m = 0; m < 40; ++m) { try { o += vf::fmt17(u.from_si(static_cast<UnitSystem::measure>(m), 2.5)) + "," + vf::fmt17(u.to_si(static_cast<UnitSystem::measure>(m), 2.5)) + ";"; } catch (const std::exception&) { o += "-;"; } }
+            return o;
+        };
+        roundtrip("UnitSystem", us, [] { return std::make_unique<UnitSystem>(); }, us_obs, cs);
+        // and into an object that already holds another family (what ScheduleStatic / EclipseState members do)
+        for (int other = 0; other < 4; ++other) {
+            run.evaluations++;
+            try {
+                Ser sx; sx.pack(us); UnitSystem y(types[other]); sx.unpack(y);
+                if (us_obs(y) != us_obs(us) || !(y == us)) run.violation("C11:UnitSystem:unpack-into-other-family", "UnitSystem " + us.getName() + " unpacked into an object constructed as " + UnitSystem(types[other]).getName() + " answers queries differently from the packed one: " + first_diff(us_obs(us), us_obs(y)), "{\"case\": " + vf::jstr(cs) + "}");
+            } catch (const std::exception& e) { run.violation("C11:UnitSystem:throws", std::string("pack/unpack throws ") + e.what(), "{\"case\": " + vf::jstr(cs) + "}"); }
         }
     }
     // calendar: the same histories with START in years on both sides of every representable-time boundary a packer could have
